@@ -213,3 +213,79 @@ Lemma c08_cache (h : list (Z * Z)) (now j : Z) :
   let '(_, e, _) := cache_lookup R cacheValidInterval_ns (cache_run R cacheValidInterval_ns None h) now j in
   e_epoch e = epoch R now /\ e_keys e = slots R now.
 Proof. exact (cache_slot_exact cacheValidInterval_ns h now j). Qed.
+
+(* ---- the age of the key-holding client underlay ---- *)
+Definition W := packetUnderlayScheduleWindow_ns.
+
+(* general form: key derived at c, used [age] later, receiver [skew] away; age + skew within one refresh interval *)
+Lemma aged_key_common (c age skew : Z) :
+  0 <= age <= S60 -> Z.abs skew <= S60 -> In (epoch R c) (slots R (c + age + skew)).
+Proof.
+  intros Ha Hs. replace (c + age + skew) with (c + (age + skew)) by lia.
+  apply skew_common_key. unfold S60, NS in *. lia.
+Qed.
+
+(* UDP: while the underlay still takes new sessions its key is among the server's three, whatever the skew <= 60 s *)
+Lemma aged_underlay_common_key (c age skew : Z) :
+  0 <= age -> underlay_takes_sessions W age = true -> Z.abs skew <= S60 ->
+  In (epoch R c) (slots R (c + age + skew)).
+Proof.
+  intros Ha Ht Hs. apply aged_key_common; [|assumption].
+  unfold underlay_takes_sessions in Ht. apply Z.leb_le in Ht.
+  unfold W, packetUnderlayScheduleWindow_ns, S60, NS in *. lia.
+Qed.
+
+Lemma key_found_In (k t : Z) : key_found R k t = true <-> In k (slots R t).
+Proof.
+  unfold key_found. rewrite existsb_exists. split.
+  - intros [x [Hin Heq]]. apply Z.eqb_eq in Heq. subst. assumption.
+  - intros Hin. exists k. split; [assumption|apply Z.eqb_refl].
+Qed.
+
+(* the whole open of a new session on an aged underlay: key found, fresh stamp accepted, reply stamp accepted *)
+Lemma aged_underlay_handshake (c age skew : Z) :
+  era (c + age) -> era (c + age + skew) ->
+  0 <= age -> underlay_takes_sessions W age = true -> Z.abs skew <= S60 ->
+  open_request_ok R c (c + age) skew = true /\ timestamp_ok (c + age) (c + age + skew) = true.
+Proof.
+  intros E1 E2 Ha Ht Hs. unfold open_request_ok. split.
+  - apply andb_true_intro. split.
+    + apply key_found_In. apply aged_underlay_common_key; assumption.
+    + apply skew60_timestamp; assumption.
+  - assert (Z.abs (- skew) <= S60) as Hs' by lia.
+    pose proof (skew60_timestamp (c + age + skew) (- skew) E2) as H.
+    replace (c + age + skew + - skew) with (c + age) in H by lia. apply H; assumption.
+Qed.
+
+(* tightness: one nanosecond more is already too much.  For EVERY window larger than the one of the code there is
+   a creation instant (the last instant of a slot), an age inside that window and a skew of exactly 60 s for which
+   the server does not try the underlay's key. *)
+Lemma underlay_window_maximal (w : Z) :
+  W < w ->
+  exists c age skew, 0 <= age /\ underlay_takes_sessions w age = true /\ Z.abs skew <= S60 /\
+                     ~ In (epoch R c) (slots R (c + age + skew)).
+Proof.
+  intros Hw. exists (1700000100 * NS - 1), (W + 1), S60.
+  split; [unfold W, packetUnderlayScheduleWindow_ns; lia|].
+  split; [unfold underlay_takes_sessions; apply Z.leb_le; lia|].
+  split; [unfold S60, NS; lia|].
+  vm_compute. intros [H|[H|[H|[]]]]; discriminate.
+Qed.
+
+(* the window that "sounds right" (one whole refresh interval, because the receiver tries three slots) is refuted *)
+Lemma full_refresh_window_refuted :
+  exists c age skew, 0 <= age /\ underlay_takes_sessions KeyRefreshInterval_ns age = true /\ Z.abs skew <= S60 /\
+                     ~ In (epoch R c) (slots R (c + age + skew)) /\ key_found R (epoch R c) (c + age + skew) = false.
+Proof.
+  exists (1700000100 * NS - 1), (90 * NS), S60. vm_compute.
+  repeat split; try discriminate. intros [H|[H|[H|[]]]]; discriminate.
+Qed.
+
+(* non-vacuity: an underlay created at the last instant of a slot, exactly [W] old, server exactly 60 s ahead *)
+Example ex_aged_boundary :
+  let c := 1700000100 * NS - 1 in
+  underlay_takes_sessions W W = true /\ underlay_takes_sessions W (W + 1) = false /\
+  era (c + W) /\ era (c + W + S60) /\
+  open_request_ok R c (c + W) S60 = true /\ open_request_ok R c (c + W + 1) S60 = false /\
+  epoch R c = 1700000040 /\ slots R (c + W + S60) = [1700000040; 1700000160; 1700000280].
+Proof. vm_compute. intuition (auto; discriminate). Qed.
